@@ -39,7 +39,7 @@ Definition normalize_cross_big (rb ab : Z) (off : Z) (a r0 : list Z) : option (l
         if Nat.eqb j 0 then
           if negb ((a_tot - a_start_bit) mod ab =? 0) then
             let take := (a_tot - a_start_bit) mod ab in
-            {| c_res := c_res s1; c_anorm := asr (c_anorm s1) take; c_acarry := c_acarry s1; c_rcarry := c_rcarry s1;
+            {| c_res := c_res s1; c_anorm := mul_power_of_two w (- take) (c_anorm s1); c_acarry := c_acarry s1; c_rcarry := c_rcarry s1;
                c_atake := c_atake s1 - take; c_racc := c_racc s1; c_rlimb := c_rlimb s1 |}
           else if negb ((r_tot - res_start_bit) mod rb =? 0) then
             {| c_res := c_res s1; c_anorm := c_anorm s1; c_acarry := c_acarry s1; c_rcarry := c_rcarry s1;
